@@ -19,7 +19,9 @@ EXPLANATION = (
     "whether the output vector is empty (initial_indent) or not (subsequent_indent), tested on the vector as it is before the "
     "push of the same iteration. (R3) the two indent fields are consumed on the wrap/fill path only by display_width, "
     "str::is_empty and to_owned into the line under construction, so what follows the indent depends only on its width and "
-    "emptiness. (R4 = C01.R2) the indent is the first component of the line. "
+    "emptiness. (C01.R2) the indent is the first component of the line. (R4) imported lemmas C06.R2 / C06.R3: the wrap "
+    "algorithms return at least one (possibly empty) line for every word list, so an empty paragraph still yields a line "
+    "that carries its indent. "
     "T: the first returned line starts with initial_indent and every later line with subsequent_indent, for every paragraph "
     "shape and option combination. U: none."
 )
@@ -221,3 +223,17 @@ def run(prog, rep):
     guarded(rep, "C08.R1", SLOW, lambda: _slow(prog, rep))
     guarded(rep, "C08.R1", WSL, lambda: _fast(prog, rep))
     guarded(rep, "C08.R3", "crate", lambda: _use_set(prog, rep))
+    # "including lines that come from empty paragraphs": every paragraph must yield at least one line, i.e. the
+    # wrap algorithms return a non-empty arrangement even for an empty word list
+    lemmas.load_all()
+    need = ["C06.R2"]
+    from .common import has_feature as _hf
+    if _hf(prog, "smawk"):
+        need.append("C06.R3")
+    for l in need:
+        st = lemmas.status(prog, l)
+        if st == "ok":
+            rep.ok("C08.R4", "crate", "lemma %s holds in this run" % l, "evaluated: ok", nontrivial=False)
+        else:
+            rep.violation("C08.R4", "crate", "lemma:" + l, "crate", "lemma %s is %s in this run: an empty paragraph could produce "
+                          "no line at all, so its indent would be missing from the output" % (l, st))
